@@ -7,7 +7,7 @@ CONSTANTS
   MaxLines = 4
   MaxDepth = 4
   MaxBlank = 1
-  Names <- C15_Names
+  Names <- C15_Names3
   SigmaSet <- C15_Sigma
   BlankPool <- C15_Blank3
   LinePool <- C15_Pool
